@@ -781,7 +781,10 @@ func (w *Writer) resolveAccessBaseSpace(handle ir.ExpressionHandle) ir.AddressSp
 		case ir.ExprAccessIndex:
 			cur = e.Base
 		case ir.ExprLoad:
-			cur = e.Pointer
+			// A loaded value is a copy: indexing it is not an access to the address
+			// space it was loaded from (e.g. `let a = sb.arr; a[i]`), so it is
+			// restricted like any other by-value base.
+			return ir.SpaceFunction
 		default:
 			// Check type resolution for pointer type
 			space := w.getPointerAddressSpace(cur)
